@@ -26,6 +26,7 @@ EXPLANATION = (
     "the runtime tests are the block's own through the whole recursion over the antecedent (P9); every optional operator is examined before it is "
     "applied on every path (C1-deref); every parser of rule text separates tokens "
     "at any whitespace, as the ` and ` / ` or ` search of readiness in the space-normalised text presupposes (C1-tok)"
+    "; C1 runs on seven antecedent shapes with their expression trees; C1-load - whatever Antecedent.load accepts (also over a variable without terms), Antecedent.activation_degree evaluates; the three operators reach the rules under every activation method (P2)"
 )
 ASSUMPTIONS = [
     "rules written with whitespace-separated tokens (property precondition); rule blocks have an activation method",
